@@ -743,6 +743,41 @@ def rule_r13(repo, run, helpers):
     import_rules(run, R, c03, repo, {"C03.R11"}, only=lambda c: "dataobj" in c)
 
 
+def rule_r14(repo, run):
+    R = run.rule("C06.R14", "the function that releases wrapped memory dispatches on the destructor index as soon as one destructor "
+                            "besides the reserved entries exists, and the owner a user writes (+owner(caller)) takes precedence "
+                            "over the owner a statement group states for its own temporaries")
+    wc = repo.module("wrapc")
+    reserved = [c for c in ast.walk(wc.tree) if isinstance(c, ast.Call) and (pyflow.call_name(c) or "") == "self.add_capsule_code"
+                and c.args and (pyflow.const_str(c.args[0]) or "").startswith("--")]
+    wcc = wc.func("Wrapc.write_capsule_code")
+    tests = [i for i in ast.walk(wcc) if isinstance(i, ast.If) and isinstance(i.test, ast.Compare)
+             and "len(self.capsule_order)" in ast.unparse(i.test.left) and isinstance(i.test.comparators[0], ast.Constant)]
+    if not reserved or not tests:
+        raise AnalysisError("C06.R14: reserved capsule entries / the switch test of write_capsule_code not found")
+    t = tests[0].test
+    k = t.comparators[0].value
+    need = len(reserved)
+    op = type(t.ops[0]).__name__
+    ok = (op == "Gt" and k == need) or (op == "GtE" and k == need + 1)
+    run.check(R, "wrapc.Wrapc.write_capsule_code:switch-threshold", ok,
+              "`%s` with %d reserved entr%s (%s): a library with exactly one releasable type gets a memory destructor without the "
+              "`switch (cap->idtor)`, nothing is ever freed" % (ast.unparse(t), need, "y" if need == 1 else "ies",
+                                                                 ", ".join(pyflow.const_str(c.args[0]) for c in reserved)), wc.loc(tests[0]))
+    fi = wc.func("Wrapc.find_idtor")
+    uses = [a for a in ast.walk(fi) if isinstance(a, ast.Assign) and pyflow.is_name(a.targets[0], "owner")
+            and "intent_blk.owner" in ast.unparse(a.value)]
+    if not uses:
+        raise AnalysisError("C06.R14: find_idtor no longer takes an owner from the statement group")
+    for a in uses:
+        atoms = pyflow.path_atoms(a, stop=fi, seg=ast.unparse)
+        ok = any(("attrs['owner']" in t_ or 'attrs["owner"]' in t_) and not pol for t_, pol in atoms)
+        run.check(R, "wrapc.Wrapc.find_idtor:attribute-before-statement-owner", ok,
+                  "the owner of the statement group is taken without having seen that the declaration has no +owner attribute "
+                  "(every group inherits owner=\"library\"): `Pt *clone() +owner(caller)` is returned with idtor 0 and never "
+                  "released", wc.loc(a))
+
+
 def run(repo, run, tier):
     tables.check_model_assumptions(repo)
     table = tables.StatementTable(repo, "statements", "fc_statements")
@@ -788,3 +823,4 @@ def run(repo, run, tier):
     rule_r11(repo, run)
     rule_r12(repo, run)
     rule_r13(repo, run, helpers)
+    rule_r14(repo, run)
